@@ -14,6 +14,8 @@ use std::time::Duration;
 pub struct State {
     pub name: &'static str,
     pub server: NetcodeServer,
+    /// in this state token t1 was already presented from another address: its request is not valid from the source
+    pub t1_used_elsewhere: bool,
 }
 
 pub struct Dgram {
@@ -73,13 +75,29 @@ pub fn fixture(tier: Tier) -> Result<Fixture, Violation> {
     let mut one_connected = new_server(2, public.clone(), Duration::ZERO);
     let mut c3 = new_client(Duration::ZERO, &t3.token);
     nc::connect(&mut one_connected, &mut c3, third)?;
+    // a second token for the same client id as t1, pending at another address while the source is pending too
+    let mut t1b_spec = TokenSpec::new(1, 12, public.clone());
+    t1b_spec.timeout = 5;
+    let t1b = make_token(&t1b_spec);
+    let mut both_pending_same_id = source_pending.clone();
+    let SR::Send { bytes: challenge1b, .. } = nc::srv_process(&mut both_pending_same_id, other, &request_datagram(&t1b))? else {
+        return Err(Violation::new("C19/fixture", "no challenge for the second token of id 1".to_string()));
+    };
+    // token t1 already presented (and refused) from a third address on a full server
+    let mut full_t1_used = full.clone();
+    let _ = nc::srv_process(&mut full_t1_used, third, &t1.request)?;
+    let mut room_t1_used = new_server(2, public.clone(), Duration::ZERO);
+    let _ = nc::srv_process(&mut room_t1_used, third, &t1.request)?;
     let states = vec![
-        State { name: "empty", server: empty },
-        State { name: "source pending", server: source_pending },
-        State { name: "other address pending", server: other_pending },
-        State { name: "server full", server: full },
-        State { name: "server full, source pending", server: full_source_pending },
-        State { name: "another client connected", server: one_connected },
+        State { name: "empty", server: empty, t1_used_elsewhere: false },
+        State { name: "source pending", server: source_pending, t1_used_elsewhere: false },
+        State { name: "other address pending", server: other_pending, t1_used_elsewhere: false },
+        State { name: "server full", server: full, t1_used_elsewhere: false },
+        State { name: "server full, source pending", server: full_source_pending, t1_used_elsewhere: false },
+        State { name: "another client connected", server: one_connected, t1_used_elsewhere: false },
+        State { name: "source pending and a second token of the same client id pending elsewhere", server: both_pending_same_id, t1_used_elsewhere: false },
+        State { name: "server full, token already presented from another address", server: full_t1_used, t1_used_elsewhere: true },
+        State { name: "room left, token already presented from another address", server: room_t1_used, t1_used_elsewhere: true },
     ];
     // datagrams
     let mut d: Vec<Dgram> = vec![];
@@ -132,6 +150,13 @@ pub fn fixture(tier: Tier) -> Result<Fixture, Violation> {
         bytes: nc::seal(&Packet::Response { token_sequence: cs2, token_data: cd2 }, PROTOCOL, 2, &t1.token.client_to_server_key),
         valid: Validity::Invalid,
     });
+    if let Some((cs, cd)) = open_ch(&challenge1b, &t1b.server_to_client_key) {
+        d.push(Dgram {
+            desc: "response echoing the challenge issued to another token of the same client id".into(),
+            bytes: nc::seal(&Packet::Response { token_sequence: cs, token_data: cd }, PROTOCOL, 2, &t1.token.client_to_server_key),
+            valid: Validity::Invalid,
+        });
+    }
     d.push(Dgram {
         desc: "response sealed with another token's keys".into(),
         bytes: nc::seal(&Packet::Response { token_sequence: cs1, token_data: cd1 }, PROTOCOL, 2, &t2.token.client_to_server_key),
@@ -175,7 +200,8 @@ pub fn run_case(fx: &Fixture, si: usize, di: usize) -> (u64, Option<Violation>) 
                     )),
                 );
             }
-            if dg.valid == Validity::Invalid {
+            let invalid_here = dg.valid == Validity::Invalid || (dg.valid == Validity::ValidRequest && fx.states[si].t1_used_elsewhere);
+            if invalid_here {
                 return (
                     3,
                     Some(Violation::new(
